@@ -19,6 +19,9 @@ MUTANTS = {
     "algo-list-alias": ("filehashstore.py", [("algorithm_list_to_calculate = list(self.default_algo_list)", "algorithm_list_to_calculate = self.default_algo_list")], ["C02"]),
     "check-string-inner-ws": ("filehashstore.py", [('if string is None or string.strip() == "" or any(ch.isspace() for ch in string):', 'if string is None or string.strip() == "":')], ["C17", "C18"]),
     "check-integer-zero": ("filehashstore.py", [("            if file_size < 1:", "            if file_size < 0:")], ["C17"]),
+    "shard-drop-remainder-sep": ("filehashstore.py", [("            + [checksum[self.depth * self.width :]]", "            + [checksum[self.depth * self.width + 1 :]]")], ["C15"]),
+    "meta-docname-sep": ("filehashstore.py", [("        pid_doc = self._computehash(pid + checked_format_id)\n\n        sync_begin_debug_msg = (\n            f\" Adding pid", "        pid_doc = self._computehash(pid + \"-\" + checked_format_id)\n\n        sync_begin_debug_msg = (\n            f\" Adding pid")], ["C15", "C11"]),
+    "cidrefs-no-newline": ("filehashstore.py", [("                    if ref_type == \"cid\":\n                        tmp_cid_ref_file.write(ref_id + \"\\n\")", "                    if ref_type == \"cid\":\n                        tmp_cid_ref_file.write(ref_id)")], ["C15", "C05"]),
 }
 
 
